@@ -31,6 +31,9 @@ class RefResult:
         self.visits = st.visits
         self.labels = st.labels
         self.speculated = st.speculated
+        self.spec_bodies = st.spec_bodies
+        self.visit_ok = st.visit_ok
+        self.full_log = st.full_log
 
     def key(self):
         return ("ok", self.value) if self.ok else ("fail", self.fails)
@@ -45,9 +48,12 @@ class _State:
         self.must = []        # bodies executed on the (so far) surviving path
         self.touched = []     # every body the eager computation executed
         self.log = []         # body / cb / effect events in eager order (surviving path)
+        self.full_log = []    # every event, including those of absorbed failed attempts
         self.visits = {}      # dataset name -> list of effective option dicts
         self.labels = set()
         self.speculated = False
+        self.spec_bodies = set()   # bodies executed inside an attempt that failed and was absorbed
+        self.visit_ok = {}         # dataset name -> list of (effective options, ok?)
 
 
 # ---- templates (own implementation) ---------------------------------------------------------------
@@ -91,12 +97,17 @@ class Ref:
             self.st.must = []
             return RefResult(False, None, f.fails, self.st)
 
+    def emit(self, ev):
+        self.st.log.append(ev)
+        self.st.full_log.append(ev)
+
     # -- speculation: a sub-evaluation whose failure is absorbed by the parent -----------------------
     def attempt(self, fn):
         mark_must, mark_log = len(self.st.must), len(self.st.log)
         try:
             return True, fn()
         except RFail as f:
+            self.st.spec_bodies.update(self.st.must[mark_must:])
             del self.st.must[mark_must:]
             del self.st.log[mark_log:]
             self.st.speculated = True
@@ -217,7 +228,7 @@ class Ref:
         if d["t"] == "tmpl":
             return self.template(d["s"], {}, o)
         if d["t"] == "factory":
-            self.st.log.append(("factory", key))
+            self.emit(("factory", key))
             return copy.deepcopy(d["v"])
         return self.ev(d["n"], o)
 
@@ -401,6 +412,13 @@ class Ref:
         if d.get("default_options") or extra_default:
             self.st.labels.add("default-options")
         self.st.visits.setdefault(d["name"], []).append(e)
+        rec = [e, False]
+        self.st.visit_ok.setdefault(d["name"], []).append(rec)
+        v = self._dataset_inner(d, e)
+        rec[1] = True
+        return v
+
+    def _dataset_inner(self, d, e):
         # every input of the dataset (dispatch, parameters, callback / effect parameters) must be
         # obtainable; a failure of any of them is a possible failure of the evaluation
         fails = set()
@@ -414,7 +432,10 @@ class Ref:
                 v = self.body(d, e)
             elif impl.get("k") == "ovfn":
                 self.st.labels.add("overload-taken")
+                orec = [e, False]
+                self.st.visit_ok.setdefault(impl["name"], []).append(orec)
                 v = self.body(impl, e)
+                orec[1] = True
             else:
                 self.st.labels.add("overload-taken")
                 v = self.ev(impl, e)
@@ -478,7 +499,7 @@ class Ref:
         name = d["name"]
         self.st.touched.append(name)
         self.st.must.append(name)
-        self.st.log.append(("body", name))
+        self.emit(("body", name))
         args = tuple(sem.freeze(a) for a in args)
         partial = d.get("partial")
         if partial and sem.PARTIAL_WHEN[partial["when"]](args):
@@ -497,7 +518,7 @@ class Ref:
             self.st.labels.add(kind + "-raised")
             raise RFail({("exc", raises["exc"])})
         if kind == "cb":
-            self.st.log.append(("cb", s["name"]))
+            self.emit(("cb", s["name"]))
             return ("cb", s["name"], x, sem.freeze(p)) if has_p else ("cb", s["name"], x)
-        self.st.log.append(("effect", s["name"], sem.typed(x), sem.typed(p) if has_p else None))
+        self.emit(("effect", s["name"], sem.typed(x), sem.typed(p) if has_p else None))
         return None
